@@ -214,11 +214,13 @@ func (t *traverser) start() {
 			return
 		}
 		if t.budget != nil {
-			t.budget.LinkBudget--
+			// same order as go-ipld-prime's own link loads: fail only when nothing is
+			// left, then charge the root (a budget of 1 allows the root block)
 			if t.budget.LinkBudget <= 0 {
 				t.writeDone(&traversal.ErrBudgetExceeded{BudgetKind: "link", Link: t.root})
 				return
 			}
+			t.budget.LinkBudget--
 		}
 		nd, err := t.linkSystem.Load(ipld.LinkContext{Ctx: t.ctx}, t.root, ns)
 		if err != nil {
